@@ -43,4 +43,10 @@ def Cell.zero : Cell := ⟨false, .allow⟩
 /-- `strings.Join(rule, model.DefaultSep)`: the key of `Assertion.PolicyMap` -/
 def ruleKey (r : Rule) : String := ",".intercalate r
 
+/-- the field does not contain the key separator -/
+def commaFree (f : String) : Bool := !f.toList.contains ','
+
+/-- a rule of the definition's arity whose fields are all comma-free -/
+def plainRule (n : Nat) (r : Rule) : Bool := r.length == n && r.all commaFree
+
 end Casbin
